@@ -13,7 +13,7 @@ import (
 
 func init() {
 	register("C01",
-		"a deferred recover at the parse entry turns every panic into the returned error and nothing reachable can end the process or swallow a panic; recorded diagnostics always become an error and are copied into the result on every path; after the top-level expression every path tests the current token against end-of-input and rejects otherwise; every placeholder (zero-width) node is accompanied by a diagnostic; speculative callbacks allocate no node; every node allocation stores all its operand fields on every path and every producer of an operand never returns nil; the scanner definitely advances before returning for every first character (first-path folding of Scan and its sub-scanners over all ASCII first characters x follow-ups and non-ASCII class samples), every scanner / line-table loop advances on every cycle, the two bisection loops shrink their interval, and every parser loop consumes a token on every cycle (conditional consumers counted on their success edge; list elements start only on tokens their parser consumes). With no diagnostic recorded yet the recorder appends on every path (the first error is never de-duplicated away); every may-panic site reachable from the deferred function AFTER its recover() (formatting of the first diagnostic: line table, binary search, position lookup) is discharged by a dominating bound, a bisection invariant or a named, read-confirmed invariant.",
+		"a deferred recover at the parse entry turns every panic into the returned error and nothing reachable can end the process or swallow a panic; recorded diagnostics always become an error and are copied into the result on every path; after the top-level expression every path tests the current token against end-of-input and rejects otherwise; every placeholder (zero-width) node is accompanied by a diagnostic; speculative callbacks allocate no node; every node allocation stores all its operand fields on every path and every producer of an operand never returns nil; the scanner definitely advances before returning for every first character (first-path folding of Scan and its sub-scanners over all ASCII first characters x follow-ups and non-ASCII class samples), every scanner / line-table loop advances on every cycle, the two bisection loops shrink their interval, and every parser loop consumes a token on every cycle (conditional consumers counted on their success edge; list elements start only on tokens their parser consumes). With no diagnostic recorded yet the recorder appends on every path (the first error is never de-duplicated away); every may-panic site reachable from the deferred function AFTER its recover() (formatting of the first diagnostic: line table, binary search, position lookup) is discharged by a dominating bound, a bisection invariant or a named, read-confirmed invariant. The diagnostics are copied into the source on every path through the worker, early exits included.",
 		"the linear time bound and stack depth as quantities (recursion depth grows with nesting and stack exhaustion is not recoverable); of the time bound only one structural part is decided: no whole-text scan (a loop over a text parameter, such as the line-start table builder) is reached from per-token parser code unless its result is kept in a nil-tested field.",
 		runC01)
 }
@@ -215,8 +215,10 @@ func c01DiagImpliesError(c *Ctx, entry *ssa.Function, ro *ParserRoles) {
 	if exprCall == nil {
 		c.R.Undecided(rule, "worker-copies-diagnostics", c.P.Pos(ro.Worker.Pos()), "top-level parse call not found")
 	} else {
-		missing := pathExists(ro.Worker, exprCall, isReturn, copies, nil)
-		c.R.Check(rule, "worker-copies-diagnostics", c.P.InstrPos(exprCall), !missing, "there is a path from the top-level parse to the worker's return on which the recorded diagnostics are not copied into the source: the entry point would report success")
+		// from the worker's entry, not only from the top-level parse: priming the scanner can already record a
+		// diagnostic, and so can an early exit for a special input (an "empty formula" message)
+		missing := pathExists(ro.Worker, nil, isReturn, copies, nil)
+		c.R.Check(rule, "worker-copies-diagnostics", c.P.InstrPos(exprCall), !missing, "there is a path through the worker to its return on which the recorded diagnostics are not copied into the source: the entry point would report success")
 	}
 	// the worker returns the source it filled, and the entry returns the worker's result
 	retOK := false
